@@ -265,6 +265,20 @@ def run_property(prop, tier, seed, impl="py", only=None):
                 p2 = write_replay(prop, h.id, cname, "table", f["inputs"], {"detail": f["detail"]}, False)
                 handle_failure(rep, prop, h, cname, "table fact: " + f["detail"], f["inputs"], p2, known, reproduced=True)
             continue
+        if kind == "bounded" and r.get("fails"):
+            regs = sorted({k["region"] for k in known if k["harness"] == h.id and k.get("region")})
+            if regs:
+                case_json = json.dumps({k: list(v) for k, v in case.items()})
+                r2 = native_call(["sample", h.id, str(T["standin"]), str(seed), case_json, json.dumps(regs)])
+                if r2.get("status") != "error" and not r2.get("fails") and r2.get("pass", 0) > 0:
+                    for k in [k for k in known if k["harness"] == h.id]:
+                        rep.known.append(k)
+                        rep.out("KNOWN-FINDING: property=%s %s [%s; bounded check %s passes on %d sampled inputs outside "
+                                "the listed region(s), %d sampled inputs fall inside]"
+                                % (prop, k["what"], k["id"], h.id, r2["pass"], r2.get("in_known_regions", 0)))
+                    r = r2
+                else:
+                    r = r2 if r2.get("fails") else r
         if kind == "bounded":
             rep.declared_bounded.append({"harness": h.id, "case": cname, "cases": r["pass"], "skipped": r["skip"],
                                          "exhaustive": bool(r.get("exhaustive")), "bound": T["standin"],
@@ -350,7 +364,8 @@ def run_property(prop, tier, seed, impl="py", only=None):
 
 def handle_failure(rep, prop, h, cname, label, inputs, path, known, reproduced, rerun=None, detail=""):
     """decide KNOWN-FINDING vs VIOLATION for a failed obligation"""
-    regs = [k for k in known if k["harness"] == h.id and k["property"] in (prop, "*")]
+    # a finding recorded for a shared harness applies to every property whose closure contains it
+    regs = [k for k in known if k["harness"] == h.id]
     suffix = "" if reproduced else " no-failing-input-found"
     if regs and rerun is not None:
         j, r2 = rerun
